@@ -858,6 +858,12 @@ def real_cross_check(n: int, seed: int) -> Dict[str, int]:
         alpha = alphabet(w)
         quiet = [a for a in alpha if not _is_shutdown(a[1])]
         hist = [rng.choice(quiet) if rng.random() < 0.6 else ((), None, False) for _ in range(L)]
+        if rng.random() < 0.4:
+            # a worker dies in the sleep, and the shutdown / reload signal arrives while the manager handles that
+            # tick: after it drained its queue, before the health check (real signals, real reaping)
+            hist.append(((rng.randrange(w),), None, False, [["drained", "sig", rng.choice(["TERM", "INT", "HUP"])]]))
+            hist.append(((), None, False))
+            hist.append(((), None, False))
         if rng.random() < 0.6:
             hist.append(((), rng.choice(["INT", "TERM"]), False))
         jobs.append((w, mf, hist))
@@ -871,7 +877,7 @@ def real_cross_check(n: int, seed: int) -> Dict[str, int]:
             st, lg = os.path.join(d, "st.txt"), os.path.join(d, "log.txt")
             cmd = ["strace", "-f", "-qq", "-e", "trace=clone,clone3,fork,vfork,kill,wait4,exit_group", "-o", st,
                    sys.executable, os.path.join(here, "pm_real.py"), REPO, str(w), str(mf),
-                   json.dumps([[list(a), b, c] for a, b, c in hist]), lg]
+                   json.dumps([[list(h[0]), h[1], h[2]] + ([h[3]] if len(h) > 3 else []) for h in hist]), lg]
             try:
                 r = subprocess.run(cmd, capture_output=True, text=True, timeout=60)
             except subprocess.TimeoutExpired:
@@ -883,10 +889,16 @@ def real_cross_check(n: int, seed: int) -> Dict[str, int]:
             if not ev or not log:
                 return ("failed", "no events", job)
             probs = oracle_real(ev, log, w, hist)
-            fake = run_history(w, mf, [(tuple(a), b, c) for a, b, c in hist])
+            crash = [e for e in log if e[0] == "crash"]
+            if crash:
+                probs.append(f"ProcessManager.start() raised {crash[0][1]}")
+            has_mid = any(len(h) > 3 for h in hist)
+            if has_mid:
+                return ("ok", probs, job, False, True)
+            fake = run_history(w, mf, [(tuple(h[0]), h[1], h[2]) for h in hist])
             real_ret = [e for e in log if e[0] == "return"]
             agree = (bool(real_ret) == fake["returned"]) and (not real_ret or real_ret[0][1] == fake["ret"])
-            return ("ok", probs, job, agree)
+            return ("ok", probs, job, agree, False)
         finally:
             shutil.rmtree(d, ignore_errors=True)
 
@@ -905,6 +917,8 @@ def real_cross_check(n: int, seed: int) -> Dict[str, int]:
             witnesses.append({"workers": r[2][0], "max_fails": r[2][1], "history": [list(map(_j, h)) for h in r[2][2]], "problems": r[1][:5]})
         if r[3]:
             out["real_fake_agree"] += 1
+        if r[4]:
+            out["real_runs_with_mid_tick_signal"] = out.get("real_runs_with_mid_tick_signal", 0) + 1
     real_cross_check.witnesses = witnesses  # type: ignore[attr-defined]
     return out
 
